@@ -512,7 +512,7 @@ fn main() {
     }
     // one line over a two-byte letter in both cases, a ligature that NFKC rewrites to two letters,
     // and a digit (neither letter nor punctuation: n-grams around it are not counted)
-    for l in strings(&WIDE_ALPHA, run.pick(3, 4)) {
+    for l in strings(&WIDE_ALPHA, run.pick(2, 3)) {
         if l.chars().any(|c| !c.is_ascii() || c.is_ascii_digit()) {
             sets.push(vec![vec![l]]);
         }
@@ -549,6 +549,12 @@ fn main() {
                 }
             }
             // the other ways of writing the same lines to the files, with the largest finite max_size
+            // the extremes of the two limits ("no limit" spelled as the largest value)
+            for (ms, mq) in [(Some(usize::MAX), None), (Some(2), Some(usize::MAX)), (Some(usize::MAX), Some(usize::MAX))] {
+                for mode in MODES {
+                    v.push(mk(ms, mq, mode));
+                }
+            }
             for term in term_patterns(files) {
                 for mq in MAX_SEQS {
                     for mode in MODES {
@@ -577,7 +583,7 @@ fn main() {
             if cs.len() == 1 {
                 println!("{}", cs[0].json());
             } else {
-                println!("{}", json!({"files": cs[0].files, "grid": "max_size {0,1,2,10} x max_sequences {None,0,1,2} x {words, chars(1), chars(3)} x num_threads {0,1,2,3}; with max_size 10 additionally every other way of terminating the lines (any set of files with an unterminated last line; CRLF)"}));
+                println!("{}", json!({"files": cs[0].files, "grid": "max_size {0,1,2,10} x max_sequences {None,0,1,2} x {words, chars(1), chars(3)} x num_threads {0,1,2,3}; the extremes (max_size usize::MAX, max_sequences usize::MAX, both); with max_size 10 additionally every other way of terminating the lines (any set of files with an unterminated last line; CRLF)"}));
             }
         } else {
             println!("{}", json!({"unit": n, "description": "no such unit"}));
@@ -596,7 +602,7 @@ fn main() {
         "file_sets_rule".into(),
         json!(format!(
             "1 line of at most {one_max} symbols; 1 line of at most 3 symbols over {CLUSTER_ALPHA:?} with the cluster; 1 line of at most {} symbols over {WIDE_ALPHA:?} with a non-ASCII symbol or the digit; 2 lines of at most {two_max} symbols each; 3 lines of at most 1 symbol each over {three_alpha:?}; lines cut into consecutive non-empty files in every way",
-            run.pick(3, 4)
+            run.pick(2, 3)
         )),
     );
     run.bounds.insert("max_size".into(), json!(MAX_SIZES.iter().map(|o| opt_json(*o)).collect::<Vec<_>>()));
